@@ -222,7 +222,7 @@ def host_obs(lib, names, rng, quick):
         p = lib.Parser()
         for i, L in enumerate(lists):
             if mode == 'var':
-                p.set_variable('h%d' % (i + 1), L)
+                p.set_variable('hv_%s' % 'abc'[i], L)       # (h1 would be a cell reference)
         if mode == 'cell':
             p.on('callCellValue', lambda c, done: done(lists[int(c.label[1:]) - 1]))
         if mode == 'range':
@@ -240,11 +240,13 @@ def host_obs(lib, names, rng, quick):
                     'in': {'formula': text, 'mode': mode, 'hosts': before}})
 
     def ref(mode, i):
-        return {'var': 'h%d', 'cell': 'H%d', 'range': 'H%d:H%d', 'fn': 'HOST%d()'}[mode] % ((i, i) if mode == 'range' else i)
+        if mode == 'var':
+            return 'hv_%s' % 'abc'[i - 1]
+        return {'cell': 'H%d', 'range': 'H%d:H%d', 'fn': 'HOST%d()'}[mode] % ((i, i) if mode == 'range' else i)
 
     modes = ['var', 'cell', 'range', 'fn']
     for name in names:
-        for mode in modes if not quick else [modes[hash(name) % 4], 'var']:
+        for mode in modes if not quick else [modes[1 + sum(map(ord, name)) % 3], 'var']:
             for hi in range(5):
                 one('%s(%s)' % (name, ref(mode, 1)), [HOSTLISTS[hi]], mode)
             for hi in (0, 1, 3):
@@ -288,7 +290,7 @@ DISTINCT = {      # a different formula on every evaluation: nothing may be kept
     'text operand': lambda i: '"order %07d"+1' % i,
     'date text': lambda i: 'YEAR("%04d-05-03")' % (1900 + i % 8000),
     'cell label': lambda i: 'A%d+1' % (i + 1),
-    'unknown variable': lambda i: 'nosuch%d+1' % i,
+    'unknown variable': lambda i: 'nosuch_%d+1' % i,
     'number': lambda i: '%d*2' % i,
     'unknown function': lambda i: 'NOFN%d(1)' % i,
     'string argument': lambda i: 'LEN("s%d")&UPPER("t%d")' % (i, i),
